@@ -233,4 +233,7 @@ pub fn run(g: &mut Global) {
     let maxops = g.tier.pick(400usize, 2000usize);
     g.random("random", g.tier.pick(12000, 150000), &move || strategy(cap, maxops), &check);
     g.random("threads", g.tier.pick(208, 5008), &thread_strategy, &check_threads);
+    if g.tier == Tier::Thorough {
+        g.fuzz_stage("ops_equiv", Some(1), 2_000_000, "random", &|b| crate::fuzzdec::decode_c05(b), &check);
+    }
 }
